@@ -432,6 +432,8 @@ def fam_boundary():
         ("bnd:empty", ""),
         ("bnd:only-comment", "// niets"),
         ("bnd:empty-fn", "functie f() { }; f()"),
+        ("bnd:empty-fn-with-params", 'print("a"); functie log(bericht, niveau) { }; log("start", %s); print("b"); log(1, 2)' % H0),
+        ("bnd:empty-fn-with-params-nested-block", "functie f(a, b, c) { { } }; functie g(a) { { { } } }; [f(1, 2, %s), g(0)]" % H0),
         ("bnd:empty-if-else", "als %s < %s { } anders { }" % (H0, H1)),
         ("bnd:empty-while", "stel i = 0; zolang i < 0 { }; i"),
         ("bnd:nested-empty-blocks", "{ { { } } }; { }; 1"),
